@@ -1,9 +1,9 @@
-from textwrap import indent
 
 
 from pydbml.classes import StickyNote
 from pydbml.renderer.dbml.default.renderer import DefaultDBMLRenderer
 from pydbml.renderer.dbml.default.utils import quote_string
+from pydbml.tools import indent_lines as indent
 
 
 @DefaultDBMLRenderer.renderer_for(StickyNote)
